@@ -128,6 +128,12 @@ def c19_case(rec, root):
         meta.append("#META CTE_RED1: " + (r1v if c["r1meta"] == "valid" else "bad"))
     if c["r2meta"] != "absent":
         meta.append("#META CTE_RED2: " + (r2v if c["r2meta"] == "valid" else "bad"))
+    # spelling of the metadata lines: the blanks around the key, the colon and the value are free
+    sv = (rec.get("case", 0) // 27) % 3
+    if sv == 1:
+        meta = [m.replace(": ", ":", 1) for m in meta]
+    elif sv == 2:
+        meta = [m.replace("#META ", "#META   ", 1).replace(": ", " :   ", 1) + "  " for m in meta]
     # position of the metadata lines in the file (the parser reads them wherever they are): before the data,
     # after a column-header line and the first data line, or at the end of the file
     pos = (rec.get("case", 0) // 3) % 3
